@@ -299,6 +299,26 @@ def check_inverse(fx, R, d, X, Y, L, Ldef, D):
     rinv, sinv, finv = d['rinv'], d['sinv'], d['finv']
     loc = fx.rel(finv['loc'])
     n_, c_, xs_, ys_, lon0_, e_ = S('this.n_'), S('this.c_'), S('this.xs_'), S('this.ys_'), S('this.longitude0_'), S('this.e_')
+    if len(sinv) > 1:
+        # exits in front of the inverse formulas: a constant answer under a test on a LENGTH (the distance to the cone apex, a projected coordinate) with an absolute constant depends on the unit the ellipsoid is
+        # expressed in - the quantifier fixes eccentricities and angles, not the semi-major axis (on a unit ellipsoid every distance to the apex is below 1)
+        from .. import earlyexit
+        from ..tree import pp as _pp
+        top_ = finv['body']['s'] if finv.get('body') and finv['body'].get('k') == 'Compound' else []
+        exits_ = earlyexit.exits_before(top_, len(top_))
+        decided = True
+        for (node_, ctext_, tol_) in exits_:
+            if tol_:
+                R.violated('A5', 'LambertConverter::toWGS84:absolute-length-exit', 'toWGS84() returns a constant answer (`%s`) when `%s` (%s): the compared quantity is a length in the units of the ellipsoid, so the test '
+                           'depends on how the ellipsoid is scaled - on an ellipsoid given in units of its semi-major axis (a = 1, same eccentricity, same parallels) every point of the projected zone satisfies it and the '
+                           'inverse returns that constant instead of the latitude and longitude (off by tenths of a radian), while metric ellipsoids never reach it' % (
+                               _pp(next((y_ for y_ in walk(node_.get('t')) if y_.get('k') == 'Return'), {}).get('e') or {})[:80], ctext_[:100], tol_), fx.rel(node_['loc']), 'E-STATE')
+            else:
+                decided = False
+                R.undecided('A5', 'LambertConverter::toWGS84:exit[%s]' % ctext_[:80], 'an exit in front of the inverse formulas; whether points of the quantifier reach it is not decided')
+        main_ = [st_ for st_ in sinv if all(not c_[2] for c_ in st_.cond)]
+        if exits_ and len(main_) == 1:
+            sinv = main_
     if len(sinv) != 1 or not isinstance(sinv[0].ret, tuple) or len(sinv[0].ret) != 2:
         R.undecided('A5', 'LambertConverter::toWGS84', 'inverse not readable as {latitude, longitude}')
         return
